@@ -23,6 +23,9 @@ pub enum Malform {
     SliceBeyondLast,
     /// slice i carries bytes that are not a transaction list
     UndecodableData(u8),
+    /// slice i carries a well-formed transaction list that is followed by stray bytes (flavour 0),
+    /// cut short by one byte (1), or announces one transaction more than it contains (2)
+    AlmostDecodable { slice: u8, flavour: u8, extra: u8 },
     /// the first slice names no parent
     NoParent,
     /// two different later slices switch the parent
@@ -109,6 +112,7 @@ impl Property for C13 {
             2 => any::<u8>().prop_map(Malform::ConflictingLastFlag),
             2 => Just(Malform::SliceBeyondLast),
             2 => any::<u8>().prop_map(Malform::UndecodableData),
+            2 => (any::<u8>(), 0u8..3, 1u8..=9).prop_map(|(slice, flavour, extra)| Malform::AlmostDecodable { slice, flavour, extra }),
             1 => Just(Malform::NoParent),
             1 => Just(Malform::ParentSwitchedTwice),
             1 => Just(Malform::ParentSwitchedToSame),
@@ -194,6 +198,21 @@ fn plan(case: &Case, built: &BuiltBlock) -> Plan {
             let i = *i as usize % k;
             let mut s = slices[i].0.clone();
             s.data = vec![0xff; 9];
+            slices[i] = reshred(s);
+            intrinsic = true;
+        }
+        Malform::AlmostDecodable { slice, flavour, extra } => {
+            let i = *slice as usize % k;
+            let mut s = slices[i].0.clone();
+            let mut d = tx_data(&[alpenglow::Transaction(prng_bytes(case.order_seed, 21)), alpenglow::Transaction(vec![])]);
+            match flavour % 3 {
+                0 => d.extend(std::iter::repeat_n(0u8, *extra as usize)),
+                1 => {
+                    d.pop();
+                }
+                _ => d[0] += 1,
+            }
+            s.data = d;
             slices[i] = reshred(s);
             intrinsic = true;
         }
